@@ -1076,7 +1076,7 @@ pub fn run(ctx: Ctx) -> ! {
             i += chunk;
         }
     }
-    let wall2 = if ctx.quick() { (54.0 - ctx.elapsed_s()).max(5.0) } else { 1100.0 };
+    let wall2 = if ctx.quick() { (54.0 - ctx.elapsed_s()).max(5.0) } else { (1150.0 - ctx.elapsed_s()).max(60.0) };
     let t0 = std::time::Instant::now();
     let skipped = std::sync::atomic::AtomicU64::new(0);
     let nontrivial = std::sync::atomic::AtomicU64::new(0);
